@@ -699,14 +699,13 @@ class Track(CollectionBase):
         Returns:
             Track
         """
-        _start = default_to_zulu(
-            val.start or self.geoshapes[0].start
-        )
-        _stop = default_to_zulu(
-            val.stop or self.geoshapes[-1].end + timedelta(seconds=1)
-        )
+        _start = default_to_zulu(val.start) if val.start else None
+        _stop = default_to_zulu(val.stop) if val.stop else None
         return Track(
-            [x for x in self.geoshapes if _start <= x.start and x.end < _stop]
+            [
+                x for x in self.geoshapes
+                if (_start is None or _start <= x.start) and (_stop is None or x.end < _stop)
+            ]
         )
 
     def __repr__(self):
